@@ -224,6 +224,8 @@ def zbool(v):
                 return TRUTH[v.ty.name](v)
             return z3.BoolVal(True)
         raise Unsupported(f"truthiness of {v.ty!r}")
+    if hasattr(v, "model_truth"):
+        return zbool(v.model_truth())
     return z3.BoolVal(bool(v))
 
 
@@ -290,6 +292,8 @@ def py_eq(a, b):
 
 
 def py_not(v):
+    if hasattr(v, "model_truth"):
+        v = v.model_truth()
     if isinstance(v, SV):
         return SV(TBool, z3.Not(zbool(v)))
     return not v
